@@ -9,4 +9,5 @@ import XrlC06.Lemmas.Loops
 import XrlC06.Lemmas.Refr
 import XrlC06.Lemmas.Total
 import XrlC06.Lemmas.Begin
+import XrlC06.Lemmas.Fixed
 import XrlC06.Props.C06
